@@ -207,6 +207,13 @@ FRAGS = [
     ('stmt', 'x = 1', '{}', lambda t: t.body[0], (1, 0)),
     ('expr', 'é + "ñ"  # c', 'x = ({}\n)', lambda t: t.body[0].value, (1, 5)),
     ('expr', '(a\n + b)', 'x = ({})', lambda t: t.body[0].value, (1, 5)),
+    # unparenthesised tuples which only parse inside pfst's wrapper: the subscript slice is where Python itself allows them to span lines
+    ('expr', 'a,\n"é" # c', '_[\n{}\n]', lambda t: t.body[0].value.slice, (2, 0)),
+    ('expr', 'a,\nb, "日本" # comment', '_[\n{}\n]', lambda t: t.body[0].value.slice, (2, 0)),
+    ('expr', 'é, "ñ"   ', '_[\n{}\n]', lambda t: t.body[0].value.slice, (2, 0)),
+    ('expr', '# lead\n"𝒳", b  # t', '_[\n{}\n]', lambda t: t.body[0].value.slice, (2, 0)),
+    ('expr', 'a,\nb,', '_[\n{}\n]', lambda t: t.body[0].value.slice, (2, 0)),
+    ('expr', '"é", (b),  # c', '_[\n{}\n]', lambda t: t.body[0].value.slice, (2, 0)),
 ]
 ESCAPES = [   # must be rejected: valid only BECAUSE of a wrapper
     ('expr', 'a), (b'), ('expr', ') + ('), ('expr', 'a)\n(b'), ('expr_slice', 'a], x[b'), ('expr_arglike', 'a), f(b'), ('keyword', 'k=v), f(j=w'),
